@@ -64,6 +64,7 @@ class Ctx:
         self.safety_sites = {}
         self.both = both
         self.notes = []
+        self.frame_writes = []
 
     # ---- branching
     def fork(self, options, label=""):
